@@ -45,6 +45,41 @@ theorem member_key_is_eval_of_sum (dealers : List (List Nat)) (k : Nat)
 example : memberKey 13 [[1, 2], [3, 4]] 5 = some ((1 + 2 * 5 + 3 + 4 * 5) % 13) ∧
     groupSecret 13 [[1, 2], [3, 4]] = some 4 := by decide
 
+/-- A member whose id is `≡ 0 (mod r)` (e.g. the 256-bit id `r` itself; ids are free-form) is dealt
+    `f(0)`: its key *is* the group secret. Every clause of C13 still holds for such a group (this is a
+    secrecy defect of the scheme's use, not a subset-dependence); replayed on the implementation by
+    `corpus/C13/idzero.ops`. -/
+theorem id_zero_mod_order_gets_group_secret [NeZero r] (dealers : List (List Nat)) (hne : dealers ≠ [])
+    (hk : ∀ cs ∈ dealers, cs ≠ []) (x : Nat) (hx : x % r = 0) :
+    ∃ g, memberKey r dealers x = some g ∧ groupSecret r dealers = some g := by
+  have hr : 0 < r := Nat.pos_of_ne_zero (NeZero.ne r)
+  obtain ⟨v, hv⟩ := memberKey_isSome (r := r) dealers x hne hk
+  obtain ⟨g, hg⟩ := aggregateSeckeys_isSome r (dealers.map (fun cs => cs.headD 0)) (by simpa using hne)
+  have hgs : groupSecret r dealers = some g := hg
+  have h1 := memberKey_eval dealers x v hv
+  have h2 := groupSecret_eval dealers g hgs
+  have hx0 : ((x : Nat) : ZMod r) = 0 := (ZMod.natCast_eq_zero_iff x r).2 (Nat.dvd_of_mod_eq_zero hx)
+  rw [hx0, ← h2] at h1
+  have hvl : v < r := by
+    unfold memberKey at hv
+    split at hv
+    · rename_i shares _
+      cases shares with
+      | nil => simp [aggregateSeckeys] at hv
+      | cons a rest => simp only [aggregateSeckeys, Option.some.injEq] at hv; subst hv; exact Nat.mod_lt _ hr
+    · simp at hv
+  have hgl : g < r := by
+    unfold aggregateSeckeys at hg
+    split at hg
+    · simp at hg
+    · simp only [Option.some.injEq] at hg; subst hg; exact Nat.mod_lt _ hr
+  have : v = g := by
+    have := (ZMod.natCast_eq_natCast_iff' v g r).1 h1
+    rwa [Nat.mod_eq_of_lt hvl, Nat.mod_eq_of_lt hgl] at this
+  exact ⟨g, by rw [hv, this], hgs⟩
+
+example : memberKey 13 [[1, 2], [3, 4]] 26 = some 4 ∧ groupSecret 13 [[1, 2], [3, 4]] = some 4 := by decide
+
 /-- The group public key (`AggregatePubkeys` of the dealers' `coeffs[0]·g₂`) is `f(0)•g₂`. -/
 theorem group_pk {G₂ : Type} [AddCommGroup G₂] [Module (ZMod r) G₂] (ops : Ops G₂) (hops : LawfulOps r ops)
     (dealers : List (List Nat)) (hd : dealers ≠ []) (g2 : G₂) :
@@ -285,13 +320,28 @@ theorem sign_generator_any_arrival_order_partial [Fact r.Prime]
   have hge := groupSecret_eval dealers gsk hg
   have htarget : ops.mul hm gsk = (groupPoly r dealers).eval 0 • hm := by rw [hops.mul_eq, hge]
   rw [htarget] at hval ⊢
-  obtain ⟨st, hf, hinv, hall⟩ := feed_inv ops hops isValid (groupPoly r dealers) k hk0
-    (degree_groupPoly_lt dealers k (fun cs h => (hk cs h).2))
-    (fun x => (memberKey r dealers x).getD 0)
-    (fun x => by
-      obtain ⟨v, hv⟩ := memberKey_isSome (r := r) dealers x hne (fun cs h => (hk cs h).1)
-      simp only [hv, Option.getD_some]
-      exact memberKey_eval dealers x v hv) hm hval arr (SignGen.new k)
+  have hdeg := degree_groupPoly_lt (r := r) dealers k (fun cs h => (hk cs h).2)
+  have hs : ∀ x, (((memberKey r dealers x).getD 0 : Nat) : ZMod r) = (groupPoly r dealers).eval (x : ZMod r) := by
+    intro x
+    obtain ⟨v, hv⟩ := memberKey_isSome (r := r) dealers x hne (fun cs h => (hk cs h).1)
+    simp only [hv, Option.getD_some]
+    exact memberKey_eval dealers x v hv
+  obtain ⟨st, hf, hinv, hall⟩ := feed_inv ops r isValid k hk0
+    (fun x => ops.mul hm ((memberKey r dealers x).getD 0)) ((groupPoly r dealers).eval 0 • hm)
+    (by
+      intro ids hlen hids
+      have hne' : ids ≠ [] := by intro h0; subst h0; simp at hlen; omega
+      have := recoverWith_poly ops hops ids hne' hids (groupPoly r dealers) (by simpa [hlen] using hdeg)
+        (ids.map (fun x => (memberKey r dealers x).getD 0)) (by simp) (by
+          intro t ht
+          rw [List.getD, List.getElem?_map, List.getElem?_eq_getElem ht]
+          simp only [Option.map_some, Option.getD_some]
+          rw [hs]
+          unfold pt
+          simp [List.getD, List.getElem?_eq_getElem ht]) hm
+      rw [List.map_map] at this
+      exact this)
+    hval arr (SignGen.new k)
     ⟨rfl, Or.inr ⟨rfl, by simpa [SignGen.new] using hk0, by simp [SignGen.new], by simp [SignGen.new]⟩⟩
     hhon (by simpa [SignGen.new] using hmod)
   refine ⟨st, hf, ?_⟩
